@@ -103,6 +103,32 @@ theorem ipStep_eval (n : Nat) (s1 s2 : STab) (hz : ∀ idx, idx < n → EqOn n (
       have eb : ∀ x : Bool, (true && (false != x)) = x := by intro x; cases x <;> rfl
       rw [eb]
 
+/-- the gate-list action preserves commutation -/
+theorem actCirc_sp (n : Nat) (c : List Gate) (hc : ∀ g, g ∈ c → g.WF n) (x y : PRow) :
+    sp n (actCirc c x) (actCirc c y) = sp n x y := by
+  induction c generalizing x y with
+  | nil => rfl
+  | cons g rest ih =>
+    show sp n (actCirc rest (g.act x)) (actCirc rest (g.act y)) = _
+    rw [ih (fun g' hg' => hc g' (List.mem_cons_of_mem _ hg')), (g.isAut n (hc g List.mem_cons_self)).sp]
+
+/-- the stabilizer half of `run_circuit(b, circ)`: its group is the image of the group of `b`, and it is again a real
+    commuting generating set -/
+theorem ofTab_runCircuit_image (n : Nat) (circ : List Gate) (wf : ∀ g, g ∈ circ → g.WF n) (b : Tab) (hn : b.n = n)
+    (gb : (STab.ofTab b).Good) :
+    CircImage n circ (STab.ofTab b) (STab.ofTab (b.runCircuit circ)) ∧ (STab.ofTab (b.runCircuit circ)).Good := by
+  have nB : (STab.ofTab b).n = n := hn
+  have nB' : (STab.ofTab (b.runCircuit circ)).n = n := (Tab.runCircuit_rows n circ wf b hn).1
+  refine ⟨circImage_of_rows n circ wf _ _ nB nB' (fun i hi => ofTab_runCircuit_row n circ wf b hn i hi), ?_⟩
+  constructor
+  · intro i _; rfl
+  · intro i k hi hk
+    rw [nB'] at hi hk ⊢
+    rw [sp_eqOn _ _ _ _ _ (ofTab_runCircuit_row n circ wf b hn i hi) (ofTab_runCircuit_row n circ wf b hn k hk),
+      actCirc_sp n circ wf]
+    have := gb.comm i k (by rw [nB]; exact hi) (by rw [nB]; exact hk)
+    rw [nB] at this; exact this
+
 /-- the facts behind every theorem on `inner_product`: the canonical form `s2` the code inspects, its `Canon` data, the
     two group images, and the value of the loop -/
 theorem innerProduct_analysis (a b : Tab) (s1 : STab) (circ : List Gate) (r : Option Nat)
@@ -128,28 +154,8 @@ theorem innerProduct_analysis (a b : Tab) (s1 : STab) (circ : List Gate) (r : Op
   have z1 := isZero_spanEq s1 g1 hzero
   rw [n1] at z1
   -- the second state
-  have nB : (STab.ofTab b).n = a.n := hn.symm
-  have nB' : (STab.ofTab (b.runCircuit circ)).n = a.n := (Tab.runCircuit_rows a.n circ wf b hn.symm).1
-  have imgB : CircImage a.n circ (STab.ofTab b) (STab.ofTab (b.runCircuit circ)) :=
-    circImage_of_rows a.n circ wf _ _ nB nB' (fun i hi => ofTab_runCircuit_row a.n circ wf b hn.symm i hi)
-  have gB' : (STab.ofTab (b.runCircuit circ)).Good := by
-    constructor
-    · intro i _; rfl
-    · intro i k hi hk
-      rw [nB'] at hi hk ⊢
-      rw [sp_eqOn _ _ _ _ _ (ofTab_runCircuit_row a.n circ wf b hn.symm i hi)
-        (ofTab_runCircuit_row a.n circ wf b hn.symm k hk)]
-      have aut : ∀ (c : List Gate), (∀ g, g ∈ c → g.WF a.n) → ∀ x y, sp a.n (actCirc c x) (actCirc c y) = sp a.n x y := by
-        intro c
-        induction c with
-        | nil => intro _ x y; rfl
-        | cons g rest ih =>
-          intro hc x y
-          show sp a.n (actCirc rest (g.act x)) (actCirc rest (g.act y)) = _
-          rw [ih (fun g' hg' => hc g' (List.mem_cons_of_mem _ hg')), (g.isAut a.n (hc g List.mem_cons_self)).sp]
-      rw [aut circ wf]
-      have := gb.comm i k (by rw [nB]; exact hi) (by rw [nB]; exact hk)
-      rw [nB] at this; exact this
+  obtain ⟨imgB, gB'⟩ := ofTab_runCircuit_image a.n circ wf b hn.symm gb
+  have nB' : (STab.ofTab (b.runCircuit circ)).n = a.n := imgB.nT'
   obtain ⟨sc, g2⟩ := canonicalForm_spanEq _ s2 gB' h2
   have n2 : s2.n = a.n := sc.n_eq.symm.trans nB'
   obtain ⟨k, px, pz, hx, hz⟩ := canonicalForm_canon _ s2 h2
